@@ -208,7 +208,7 @@ class Term:
         if k == "goto":
             out = [self.target]
         elif k == "switch":
-            out = [bb for _, bb in self.j["arms"]] + [self.j["otherwise"]]
+            out = [bb for _, bb in self.j["arms"]] + ([] if self.j.get("otherwise_dead") else [self.j["otherwise"]])
         elif k in ("drop", "assert"):
             out = [self.target]
         elif k == "call":
@@ -536,6 +536,21 @@ class Program:
                 self.absorbed[h] = self.fns.pop(h)
         for f_ in list(self.fns.values()) + list(self.absorbed.values()):
             f_.prog = self
+        # an `otherwise` edge of a switch on the discriminant of an enum all of whose variants have an arm of their own can
+        # never be taken (rustc points it at the wildcard arm of a `matches!`, which would otherwise look reachable two ways)
+        try:
+            from . import prim as _prim
+            for f_ in list(self.fns.values()) + list(self.absorbed.values()):
+                for b_ in f_.blocks:
+                    t_ = b_.term
+                    if t_.k != "switch":
+                        continue
+                    vals = [v for v, _ in t_.j.get("arms", [])]
+                    n_ = _prim._variant_count(f_, b_.idx)
+                    if n_ is not None and len(set(vals)) == n_ and all(isinstance(v, int) and 0 <= v < n_ for v in vals):
+                        t_.j["otherwise_dead"] = True
+        except Exception:
+            pass
 
     def fn(self, path):
         f = self.fns.get(path)
